@@ -4,6 +4,7 @@ import (
 	"fmt"
 	"go/token"
 	"go/types"
+	"strings"
 
 	"lwverif/internal/absint"
 )
@@ -247,13 +248,18 @@ func c16JoinE1(c *Ctx) {
 				} else {
 					dom = d.M.And(dom, d.M.Not(st.optNeg))
 				}
+				args, aerr := c16BuildArgs(in, c, fn, st)
+				if aerr != nil {
+					r.Unknown(rule, key, "", "the core's parameters can be filled from the request, the device keys and the two KEKs by type and name", aerr.Error())
+					continue
+				}
 				var ans *absint.Struct
 				undec := ""
 				forParts(in, dom, 6, func(dp absint.Node, tag string) error {
 					var res []absint.Value
 					if e := in.Try(func() {
 						in.SetLive(dp)
-						res = in.CallFunc("backend/joinserver", fn, st.req, st.dk, st.asLabel, st.asKEK, st.nsLabel, st.nsKEK)
+						res = in.CallFunc("backend/joinserver", fn, args...)
 					}); e != nil {
 						return e
 					}
@@ -527,4 +533,91 @@ func c16CheckJoinAnswer2(in *absint.Interp, st *c16Inputs, ans *absint.Struct, d
 		}
 	}
 	return "", "", true
+}
+
+// c16BuildArgs fills the parameters of a join-server core by type and name, so that regrouping them (a struct of key
+// material instead of five loose parameters) does not change what is analysed: the request payload, the DeviceKeys
+// value, strings and byte slices whose (path of) names contain "as" / "ns" for the AS / NS KEK label and KEK. Structs
+// of the package are filled field by field. Anything else is an error (the rule is then undecided).
+func c16BuildArgs(in *absint.Interp, c *Ctx, fn string, st *c16Inputs) ([]absint.Value, error) {
+	pk := c.Prog.Pkg("backend/joinserver")
+	if pk == nil {
+		return nil, fmt.Errorf("package backend/joinserver not loaded")
+	}
+	f, ok := pk.Types.Scope().Lookup(fn).(*types.Func)
+	if !ok {
+		return nil, fmt.Errorf("function %s not found", fn)
+	}
+	sig := f.Type().(*types.Signature)
+	used := map[string]bool{}
+	var fill func(t types.Type, path string) (absint.Value, error)
+	fill = func(t types.Type, path string) (absint.Value, error) {
+		lp := strings.ToLower(path)
+		side := ""
+		// the innermost name that says which KEK is meant decides
+		if i, j := strings.LastIndex(lp, "as"), strings.LastIndex(lp, "ns"); i >= 0 || j >= 0 {
+			if i > j {
+				side = "as"
+			} else {
+				side = "ns"
+			}
+		}
+		if n, ok := t.(*types.Named); ok {
+			switch n.Obj().Name() {
+			case "JoinReqPayload", "RejoinReqPayload":
+				used["req"] = true
+				return st.req, nil
+			case "DeviceKeys":
+				used["dk"] = true
+				return st.dk, nil
+			}
+		}
+		switch u := t.Underlying().(type) {
+		case *types.Basic:
+			if u.Kind() == types.String && side != "" {
+				used[side+"Label"] = true
+				if side == "as" {
+					return st.asLabel, nil
+				}
+				return st.nsLabel, nil
+			}
+		case *types.Slice:
+			if b, ok := u.Elem().Underlying().(*types.Basic); ok && b.Kind() == types.Uint8 && side != "" {
+				used[side+"KEK"] = true
+				if side == "as" {
+					return st.asKEK, nil
+				}
+				return st.nsKEK, nil
+			}
+		case *types.Struct:
+			v, ok := in.Zero(t).(*absint.Struct)
+			if !ok {
+				break
+			}
+			for i := 0; i < u.NumFields(); i++ {
+				fv, err := fill(u.Field(i).Type(), path+"."+u.Field(i).Name())
+				if err != nil {
+					return nil, err
+				}
+				v.F[u.Field(i).Name()].V = fv
+			}
+			return v, nil
+		}
+		return nil, fmt.Errorf("parameter %s of type %s is not recognised", path, t)
+	}
+	var out []absint.Value
+	for i := 0; i < sig.Params().Len(); i++ {
+		p := sig.Params().At(i)
+		v, err := fill(p.Type(), p.Name())
+		if err != nil {
+			return nil, err
+		}
+		out = append(out, v)
+	}
+	for _, k := range []string{"req", "dk", "asLabel", "asKEK", "nsLabel", "nsKEK"} {
+		if !used[k] {
+			return nil, fmt.Errorf("no parameter of %s takes the %s", fn, k)
+		}
+	}
+	return out, nil
 }
